@@ -216,6 +216,33 @@ pub fn transplanted(rng: &mut Rng) -> Vec<u64> {
     out
 }
 
+/// four (or five, twelve) cells of one resolution in arithmetic progression with the stride of ANOTHER level: first
+/// children of consecutive parents / quintants / faces.  They are never siblings, so nothing may merge.
+pub fn wrong_stride(rng: &mut Rng) -> Vec<u64> {
+    use a5::core::serialization::{deserialize, serialize};
+    let r = 2 + rng.below(28) as i32;
+    let parent = crate::ids::random_cell(rng, r - 1);
+    let kids = children(parent);
+    let c0 = kids[if rng.chance(0.7) { 0 } else { rng.below(4) as usize }];
+    // strides of the coarser Hilbert levels and of the top six bits
+    let mut strides: Vec<u64> = (2..r).map(|q| 1u64 << (2 * (30 - q))).collect();
+    strides.push(1u64 << 58);
+    let st = if rng.chance(0.4) { *strides.last().unwrap() } else if rng.chance(0.5) && strides.len() >= 2 { strides[strides.len() - 2] } else { *rng.pick(&strides) };
+    let n = [4u64, 4, 5, 12][rng.below(4) as usize];
+    let mut out = vec![];
+    for k in 0..n {
+        let x = c0.wrapping_add(k.wrapping_mul(st));
+        if a5::get_resolution(x) == r && deserialize(x).and_then(|c| serialize(&c)).map(|y| y == x).unwrap_or(false) { out.push(x); }
+    }
+    if rng.chance(0.3) { out.extend(random_antichain(rng, 10)); }
+    out.sort_unstable(); out.dedup();
+    // an antichain is required: drop anything that has an ancestor in the list
+    let snapshot = out.clone();
+    out.retain(|&x| { let rx = a5::get_resolution(x); !snapshot.iter().any(|&y| y != x && a5::get_resolution(y) < rx && a5::cell_to_parent(x, Some(a5::get_resolution(y))).map(|a| a == y).unwrap_or(false)) });
+    rng.shuffle(&mut out);
+    out
+}
+
 fn overlapping(rng: &mut Rng, base: &[u64]) -> Vec<u64> {
     let mut v = base.to_vec();
     let n = 1 + rng.below(4);
@@ -347,7 +374,8 @@ pub fn gen_c08(tier: &str, seed: u64, out: &str, mc: Option<&str>) -> Value {
     }
     for _ in 0..(if tier == "thorough" { 6000 } else { 600 }) {
         t.emit(compact8_event(&transplanted(&mut rng), &mut rng, 2, cap));
-        n += 1;
+        t.emit(compact8_event(&wrong_stride(&mut rng), &mut rng, 2, cap));
+        n += 2;
         t.cut();
     }
     let cases = if tier == "thorough" { 6000 } else { 500 };
@@ -386,7 +414,8 @@ pub fn gen_c10(tier: &str, seed: u64, out: &str, mc: Option<&str>) -> Value {
     }
     for _ in 0..(if tier == "thorough" { 6000 } else { 600 }) {
         t.emit(compact10_event(&transplanted(&mut rng)));
-        n += 1;
+        t.emit(compact10_event(&wrong_stride(&mut rng)));
+        n += 2;
         t.cut();
     }
     let cases = if tier == "thorough" { 8000 } else { 700 };
